@@ -277,6 +277,44 @@ pub fn run_case_file(args: &Args) -> i32 {
     }
 }
 
+/// Sequences whose three codes are the largest ones (literal length codes 34/35, match length code 52, offset codes
+/// 26..=31: up to 63 extra bits per sequence), in RLE, predefined and FSE table modes and at every bit alignment
+/// (1..=9 such sequences in a row). The offsets reach far beyond any output, so every one of these frames must end in
+/// an error - after the bit reader has served the widest reads the format allows.
+fn max_code_plans() -> Vec<(String, Vec<u8>)> {
+    use zspec::frame::HeaderSpec;
+    use zspec::synth::{BlockPlan, CompressedPlan, CountForm, FramePlan, LitPlan, OffsetPlan, SeqPlan, TableMode};
+    let mut out = Vec::new();
+    for of_code in 24u32..=31 {
+        for (mi, modes) in [(TableMode::Rle, TableMode::Rle, TableMode::Rle), (TableMode::Predefined, TableMode::Predefined, TableMode::Predefined), (TableMode::Fse { acc_log: None, norm: None }, TableMode::Fse { acc_log: None, norm: None }, TableMode::Fse { acc_log: None, norm: None }), (TableMode::Predefined, TableMode::Rle, TableMode::Predefined)].into_iter().enumerate() {
+            // the predefined offset table ends at code 28
+            if matches!(modes.1, TableMode::Predefined) && of_code > 28 {
+                continue;
+            }
+            for nseq in 1usize..=9 {
+                for ll in [40_000u32, 70_000] {
+                    let distance = (((1u64 << of_code) + 12_345 * nseq as u64).min(0xFFFF_FFF0) - 3) as u32;
+                    let seqs: Vec<SeqPlan> = (0..nseq).map(|_| SeqPlan { ll, ml: 70_000, offset: OffsetPlan::Raw(distance) }).collect();
+                    let plan = FramePlan {
+                        header: HeaderSpec { window_descriptor: Some(0x80), ..Default::default() },
+                        blocks: vec![
+                            BlockPlan::Raw(b"0123456789".to_vec()),
+                            BlockPlan::Compressed(CompressedPlan { literals: vec![b'x'; 7], lit: LitPlan::Rle { size_format: None }, seqs, ll_mode: modes.0.clone(), of_mode: modes.1.clone(), ml_mode: modes.2.clone(), seq_count_form: CountForm::Auto }),
+                        ],
+                        dict: None,
+                        checksum_override: None,
+                    };
+                    // the synthesiser may refuse a plan it cannot express: skip those
+                    if let Ok(s) = std::panic::catch_unwind(|| zspec::synth::synthesise(&plan)) {
+                        out.push((format!("max codes: of code {of_code}, ll {ll}, {nseq} sequences, table modes #{mi}"), s.bytes));
+                    }
+                }
+            }
+        }
+    }
+    out
+}
+
 pub fn run(args: &Args) -> i32 {
     let rec = Recorder::new("C03", "exploration", args);
     rec.set_rule("one evaluation = one hostile input driven through one decoding entry point with a legal call sequence (drain, query and reset after an error; abandon after 64 MiB of output) followed by a known-good frame on the same decoder; distinct_nontrivial = distinct (entry point, outcome class incl. error variant) pairs reached");
@@ -367,7 +405,8 @@ pub fn run(args: &Args) -> i32 {
         }
         seeds.push(frames::seq_frame(&mut r0));
     }
-    let hostile: Vec<(String, Vec<u8>)> = zspec::synth::hostile_matrix().into_iter().map(|(n, p)| (n, zspec::synth::synthesise(&p).bytes)).filter(|(_, b)| b.len() <= 200_000).collect();
+    let mut hostile: Vec<(String, Vec<u8>)> = zspec::synth::hostile_matrix().into_iter().map(|(n, p)| (n, zspec::synth::synthesise(&p).bytes)).filter(|(_, b)| b.len() <= 200_000).collect();
+    hostile.extend(max_code_plans());
     let infos: Vec<Option<zspec::walker::FrameInfo>> = seeds.iter().map(|c| frames::walk(&c.bytes, c.dict.as_deref()).ok()).collect();
     // dictionaries: the repository's, a trained one, a model one
     let mut dict_raws: Vec<Vec<u8>> = Vec::new();
